@@ -399,6 +399,72 @@ fn gen_ops(rng: &mut Rng, limit: u64, n: usize) -> Vec<OpSpec> {
     ops
 }
 
+const SYS_OPS: u64 = 22;
+
+fn sys_op(code: u64, limit: u64) -> OpSpec {
+    let sizes = [1u64, 8, limit / 2, limit, limit + 1];
+    match code {
+        0..=4 => OpSpec::Alloc {
+            size: sizes[code as usize],
+            align: 8,
+        },
+        5..=9 => OpSpec::AllocZeroed {
+            size: sizes[code as usize - 5],
+            align: 8,
+        },
+        10..=19 => OpSpec::Realloc {
+            slot: ((code - 10) / 5) as u32,
+            new_size: sizes[((code - 10) % 5) as usize],
+        },
+        _ => OpSpec::Dealloc {
+            slot: (code - 20) as u32,
+        },
+    }
+}
+
+fn sys_block(mut i: u64, max_len: u32) -> Result<Vec<u64>, u64> {
+    // Ok(codes) if i falls into the sequences of length 1..max_len, else Err(rest)
+    let mut block = SYS_OPS;
+    for len in 1..=max_len {
+        if i < block {
+            let mut v = Vec::new();
+            for _ in 0..len {
+                v.push(i % SYS_OPS);
+                i /= SYS_OPS;
+            }
+            return Ok(v);
+        }
+        i -= block;
+        block *= SYS_OPS;
+    }
+    Err(i)
+}
+
+fn systematic(index: u64, tier: Tier) -> Option<Scenario> {
+    let (limit, codes) = match sys_block(index, 3) {
+        Ok(c) => (64u64, c),
+        Err(rest) => {
+            let max = match tier {
+                Tier::Quick => 4,
+                Tier::Thorough => 5,
+            };
+            match sys_block(rest, max) {
+                Ok(c) => (1000u64, c),
+                Err(_) => return None,
+            }
+        }
+    };
+    Some(Scenario {
+        limit,
+        phases: vec![vec![codes.into_iter().map(|c| sys_op(c, limit)).collect()]],
+        reset: ResetMode::Every,
+        reset_seed: 0,
+        alloc_fail_pct: 0,
+        policy: Policy::Sticky(8),
+        policy_seed: 0,
+    })
+}
+
 impl Harness for C19 {
     type Scenario = Scenario;
 
@@ -409,17 +475,26 @@ impl Harness for C19 {
     fn budget(&self, tier: Tier) -> Budget {
         match tier {
             Tier::Quick => Budget {
-                runs: 400_000,
-                soft_s: 50,
+                runs: 1_000_000,
+                soft_s: 60,
             },
             Tier::Thorough => Budget {
-                runs: 8_000_000,
+                runs: 12_000_000,
                 soft_s: 900,
             },
         }
     }
 
-    fn generate(&self, rng: &mut Rng, tier: Tier, _index: u64) -> Scenario {
+    fn generate(&self, rng: &mut Rng, tier: Tier, index: u64) -> Scenario {
+        // Coverage floor: the first run indices of every batch enumerate all short
+        // sequential histories over 22 operations (alloc / alloc_zeroed with 5 sizes,
+        // realloc of block 0 or 1 to 5 sizes, dealloc of block 0 or 1; sizes tiny, small,
+        // half the limit, the limit, the limit + 1): limit 64 up to length 3, limit 1000
+        // up to length 4 (thorough: 5), checked after every operation. All later
+        // indices are random.
+        if let Some(sc) = systematic(index, tier) {
+            return sc;
+        }
         let limit = *rng.pick(&[64u64, 1000, 4096, 1 << 20]);
         // Sub-batches are chosen by the run's own PRNG (not by index) so that
         // every worker process gets the same mix.
@@ -795,7 +870,9 @@ impl Harness for C19 {
     }
 
     fn rule(&self) -> String {
-        "One evaluation = one seeded operation history against a private real Alloc::new(limit), limit in {64,1000,4096,2^20}, \
+        "The first run indices of a batch enumerate every sequential history of length 1..3 (limit 64) and 1..4 (limit 1000; thorough: 1..5) over 22 operations \
+         (alloc/alloc_zeroed x 5 sizes, realloc of block 0|1 x 5 sizes, dealloc of block 0|1; sizes 1, 8, L/2, L, L+1), checked after every operation; all later indices are random: \
+         one evaluation = one seeded operation history against a private real Alloc::new(limit), limit in {64,1000,4096,2^20}, \
          sizes from {1,8,24,L/3,L/2,L/2+1,L-1,L,L+1,random}, ops alloc/alloc_zeroed/realloc(up/down)/dealloc, checked against a \
          reference ledger. 7 of 8 runs are sequential (1..6 ops; thorough also 50..500), checked after every operation; 1 of 8 is \
          concurrent: 1..2 phases of 2..4 (thorough up to 16) controlled threads with 1..6 ops each, every atomic operation of \
